@@ -48,6 +48,8 @@ type Work struct {
 	Nils      bool   `json:"nils,omitempty"`      // interface channels also carry nil items
 	Scale     int64  `json:"scale,omitempty"`     // numeric items are multiplied by this (negative and large values; 0 = 1)
 	CapExpr   int    `json:"cap_expr,omitempty"`  // how buffer sizes are spelled: 0 literal, 1 `1 + 1`-style sum, 2 float literal
+	Helper    bool   `json:"helper,omitempty"`    // goroutines are started from inside helper functions that return at once (closures keep the helper's parameters)
+	DeferEnd  bool   `json:"defer_end,omitempty"` // stages signal their end (close / done) from a deferred call
 	Shadow    bool   `json:"shadow,omitempty"`    // outer variables named like the for-in loop variables exist (a for-in variable is a fresh binding per loop)
 }
 
@@ -104,6 +106,8 @@ func (Prop) Gen(seed int64, tier string) *harness.Case {
 	}
 	w.CapExpr = r.Intn(3)
 	w.Shadow = r.Intn(2) == 0
+	w.Helper = r.Intn(3) == 0
+	w.DeferEnd = r.Intn(3) == 0
 	if tier == "real" {
 		// the real-thread leg wants contention: many items, pools of receivers, no sleeps
 		for i := range w.Items {
@@ -327,7 +331,12 @@ func Render(w *Work) string {
 		tail := fmt.Sprintf("exited(\"%s\", cl%d)\ncl%d = true\n", in, s-1, s)
 		switch w.FwdSpawn % 4 {
 		case 0:
-			fmt.Fprintf(&b, "go func() {\n%s\n%sclose(%s)\n}()\n", loop, tail, out)
+			if w.DeferEnd {
+				// the usual idiom: the stage closes its output from a deferred call of the goroutine literal
+				fmt.Fprintf(&b, "go func(pin, pout) {\ndefer func() { exited(\"%s\", cl%d); cl%d = true; close(pout) }()\n%s\n}(%s, %s)\n", in, s-1, s, ploop, in, out)
+			} else {
+				fmt.Fprintf(&b, "go func() {\n%s\n%sclose(%s)\n}()\n", loop, tail, out)
+			}
 		case 1:
 			fmt.Fprintf(&b, "func fwd%d(pin, b, c, d, pout) {\n%s\n%sclose(pout)\n}\ngo fwd%d(%s, 2, 3, 4, %s)\n", s, ploop, tail, s, in, out)
 		case 2:
@@ -344,8 +353,23 @@ func Render(w *Work) string {
 			rb = 2
 		}
 		fmt.Fprintf(&b, "res = make(chan %s, %d)\nwd = make(chan int64)\n", w.Elem, rb)
-		fmt.Fprintf(&b, "func worker(k) {\n%s\nexited(\"%s\", cl%d)\nwd <- k\n}\n", consumerLoop(w.WorkForm, last, "wv", map[bool]string{false: "res <- wv", true: "func(x) { res <- x }(wv)"}[w.AnonSend]), last, stages-1)
-		fmt.Fprintf(&b, "for wk = 0; wk < %d; wk++ { go worker(wk) }\n", w.Workers)
+		if w.Helper {
+			// started from a loop inside a helper that returns immediately: the closures keep src / dst / done alive
+			endSig := "done <- 1"
+			if w.DeferEnd {
+				endSig = ""
+			}
+			pre := ""
+			if w.DeferEnd {
+				pre = "defer func() { done <- 1 }()\n"
+			}
+			fmt.Fprintf(&b, "func startWorkers(src, dst, done, n) {\nfor wk = 0; wk < n; wk++ {\ngo func() {\n%s%s\nexited(\"%s\", cl%d)\n%s\n}()\n}\n}\n",
+				pre, consumerLoop(w.WorkForm, "src", "wv", map[bool]string{false: "dst <- wv", true: "func(x) { dst <- x }(wv)"}[w.AnonSend]), last, stages-1, endSig)
+			fmt.Fprintf(&b, "startWorkers(%s, res, wd, %d)\n", last, w.Workers)
+		} else {
+			fmt.Fprintf(&b, "func worker(k) {\n%s\nexited(\"%s\", cl%d)\nwd <- k\n}\n", consumerLoop(w.WorkForm, last, "wv", map[bool]string{false: "res <- wv", true: "func(x) { res <- x }(wv)"}[w.AnonSend]), last, stages-1)
+			fmt.Fprintf(&b, "for wk = 0; wk < %d; wk++ { go worker(wk) }\n", w.Workers)
+		}
 		fmt.Fprintf(&b, "go func() {\nfor k = 0; k < %d; k++ { <-wd }\nclres = true\nclose(res)\n}()\n", w.Workers)
 		last = "res"
 	}
@@ -816,6 +840,16 @@ func (Prop) Shrink(c *harness.Case) []*harness.Case {
 	if w.Shadow {
 		nw := cp()
 		nw.Shadow = false
+		emit(nw)
+	}
+	if w.Helper {
+		nw := cp()
+		nw.Helper = false
+		emit(nw)
+	}
+	if w.DeferEnd {
+		nw := cp()
+		nw.DeferEnd = false
 		emit(nw)
 	}
 	if w.Workers > 2 {
